@@ -22,7 +22,7 @@ TOKENS = ["zzq7f3", "optim", "mom", "zz_unknown", "n", "items", "init_args_x", "
 def build_template(rng, eoe=False):
     """-> (factory, valid nested config, insertion nodes [(path, kind)], required [(path, kind)], argv-only positionals)"""
     feats = {f for f in ["group", "dataclass", "list_dataclass", "class", "nested_class", "list_class", "class_group", "inner_parser", "sub", "sub2", "optional_dc", "dict_class"] if rng.random() < 0.55}
-    reqs = {f for f in ["req_option", "req_dataclass_field", "req_class_param", "req_class_group", "req_subcommand", "req_subclass_args", "req_nested"] if rng.random() < 0.45}
+    reqs = {f for f in ["req_option", "req_dataclass_field", "req_class_param", "req_class_group", "req_subcommand", "req_subclass_args", "req_nested", "req_level2"] if rng.random() < 0.45}
     if "sub2" in feats:
         feats.add("sub")
     n = rng.randrange(100)
@@ -88,6 +88,8 @@ def build_template(rng, eoe=False):
                 c = ArgumentParser(exit_on_error=eoe)
                 c.add_argument("--cx", type=int, default=4)
                 c.add_argument("--cm", type=zoo.Base)
+                if "req_level2" in reqs:
+                    c.add_argument("--creq", type=int, required=True)
                 sc2.add_subcommand("deep", c)
         return p
 
@@ -145,7 +147,7 @@ def build_template(rng, eoe=False):
         cfg["rsub"] = {"class_path": "vf.fixtures.zoo.SubA", "init_args": {"a": 1}}
         required.append((("rsub",), "required-subclass-argument"))
     if "sub" in feats or "req_subcommand" in reqs:
-        which = rng.choice(["fit", "test"])
+        which = rng.choice(["fit", "test"] + (["fit", "fit"] if "sub2" in feats else []))
         cfg["subcommand"] = which
         if which == "fit":
             cfg["fit"] = {"ax": 30, "scheduler": {"gamma": 0.25}, "adc": {"x": 1, "y": 1.5}}
@@ -154,6 +156,9 @@ def build_template(rng, eoe=False):
                 cfg["fit"]["cmd"] = "deep"
                 cfg["fit"]["deep"] = {"cx": 40, "cm": {"class_path": "vf.fixtures.zoo.SubA", "init_args": {"a": 3}}}
                 nodes += [(("fit", "deep"), "subcommand-section-level2"), (("fit", "deep", "cm", "init_args"), "init_args-in-subcommand")]
+                if "req_level2" in reqs:
+                    cfg["fit"]["deep"]["creq"] = 9
+                    required.append((("fit", "deep", "creq"), "required-option-of-subcommand-level2"))
         else:
             cfg["test"] = {"bx": "bb"}
             nodes.append((("test",), "subcommand-section"))
@@ -280,7 +285,7 @@ def case(ctx, i, rng):
                 if kind == "required-subcommand":
                     mutated.pop(cfg["subcommand"], None)  # otherwise the section itself determines the subcommand (C17)
             argv = None
-            if how == "removed" and kind in ("required-option", "required-nested-option", "required-option-of-subcommand", "required-class-group-param", "required-dataclass-field", "required-subclass-argument"):
+            if how == "removed" and kind in ("required-option", "required-nested-option", "required-option-of-subcommand", "required-option-of-subcommand-level2", "required-class-group-param", "required-dataclass-field", "required-subclass-argument"):
                 argv = to_argv(mutated)
             outs = channels(factory, mutated, ctx.workdir, i, with_argv=argv)
             for ch, o in outs.items():
